@@ -28,6 +28,7 @@ theorem rowMax_last (rows n : Nat) (hn : 0 < n) : rowMax rows n (n - 1) = rows :
 
 theorem rowMax_eq_next (rows n i : Nat) : rowMax rows n i = rowMin rows n (i + 1) := by
   simp only [rowMax, rowMin]
+  try grind
 
 theorem rowMin_le_rowMax (rows n i : Nat) : rowMin rows n i ≤ rowMax rows n i := by
   simp only [rowMax, rowMin]
@@ -35,6 +36,7 @@ theorem rowMin_le_rowMax (rows n i : Nat) : rowMin rows n i ≤ rowMax rows n i 
   first
     | exact Nat.mul_le_mul_left _ (Nat.le_succ _)
     | exact Nat.mul_le_mul_right _ (Nat.le_succ _)
+    | grind
 
 /-! ### The property -/
 
